@@ -179,6 +179,23 @@ pub fn hand(b: &mut Builder) {
     let s = b.strukt("HLower", Some(RenameAll::Lower), Deny::Default, Validate::No, fields);
     b.program("struct_lower_deny", s);
 
+    // identifiers outside ASCII: `lowercase` is Unicode lowercase (ÉTAT -> état), exact match
+    let fields = vec![b.f("ÉTAT_Civil"), b.f("Größe_MAX"), b.f("ÇA"), b.f("plain")];
+    let s = b.strukt("HUnicodeLower", Some(RenameAll::Lower), Deny::Default, Validate::No, fields);
+    b.program("struct_unicode_lower", s);
+    let fields = vec![b.f("Élan"), b.f("ÑANDU")];
+    let s = b.strukt("HUnicodePlain", None, Deny::Default, Validate::No, fields);
+    b.program("struct_unicode_plain", s);
+    let variants = vec![
+        VariantDef { ident: "École".into(), rename: None, rename_all: None, fields: None },
+        VariantDef { ident: "ÎleDeFrance".into(), rename: None, rename_all: Some(RenameAll::Lower), fields: Some(vec![b.f("CÔTÉ"), b.f("nord")]) },
+    ];
+    let e = b.add_type(
+        "HUnicodeEnum",
+        TypeKind::Tagged { tag: "clé".into(), rename_all: Some(RenameAll::Lower), deny: Deny::No, validate: Validate::No, variants },
+    );
+    b.program("enum_unicode_lower", e);
+
     // deny_unknown_fields default and custom, with skipped / renamed fields
     let mut sk = b.f("hidden");
     sk.skip = true;
@@ -517,6 +534,8 @@ fn gen_desc(b: &mut Builder, rng: &mut Rng, depth: usize, named_from: usize) -> 
     }
 }
 
+const UNICODE_IDENTS: [&str; 6] = ["Élan", "ÑANDU", "größe_MAX", "ÇA_va", "Øre", "ÉTÉ"];
+
 fn gen_fields(b: &mut Builder, rng: &mut Rng, rename_all: Option<RenameAll>, named_from: usize, tag: Option<&str>) -> Vec<FieldDef> {
     // mostly small containers; now and then a wide one (sorting / pairing code paths differ)
     let n = if rng.chance(1, 12) { 21 + rng.below(8) } else { rng.below(7) };
@@ -524,7 +543,11 @@ fn gen_fields(b: &mut Builder, rng: &mut Rng, rename_all: Option<RenameAll>, nam
     let mut attempts = 0;
     while fields.len() < n && attempts < 400 {
         attempts += 1;
-        let ident = gen_ident(rng);
+        let mut ident = gen_ident(rng);
+        // outside camelCase the documented rule is unambiguous for any identifier Rust accepts
+        if rename_all != Some(RenameAll::Camel) && rng.chance(1, 15) {
+            ident = rng.pick(&UNICODE_IDENTS).to_string();
+        }
         if fields.iter().any(|f| f.ident == ident) {
             continue;
         }
@@ -567,7 +590,8 @@ fn gen_fields(b: &mut Builder, rng: &mut Rng, rename_all: Option<RenameAll>, nam
         if rng.chance(1, 4) {
             // rename: sometimes to a near-miss of another spelling of the same identifier
             f.rename = Some(match rng.below(5) {
-                0 => camel(&ident),
+                0 if ident.is_ascii() => camel(&ident),
+                0 => format!("{}_r", ident.to_lowercase()),
                 1 => ident.to_uppercase(),
                 2 => format!("{}_renamed", ident.to_lowercase()),
                 3 => rng.pick(&WORDS).to_string(),
